@@ -335,6 +335,29 @@ def eval_rt(ctx: Ctx, c: dict):
         _fail(ctx, f"C05/text-roundtrip/{tname}/parse-fails/{trig}",
                  f"from_text({tname}, {text!r}) raised {exc_family(e)} {e!r}; value from wire {wire.hex()}", rep)
         return
+    # --- relativize_to different from origin (the zone-file situation of an $ORIGIN below the zone origin): the names are
+    # completed with `origin` and relativized against `relativize_to`; both parses denote the same absolute names
+    if porigin is not None and len(porigin.labels) >= 2:
+        parent = dns.name.Name(porigin.labels[1:])
+        try:
+            ra = dns.rdata.from_text(rdclass, rdtype, text, origin=porigin, relativize=True, relativize_to=parent)
+        except dns.exception.DNSException:
+            ra = None
+        model_corr_fromtext(ctx, c, tname, text, porigin, True, ra, parent)
+        if ra is not None and tname not in ("TKEY", "TSIG"):   # their algorithm name is read without any origin
+            try:
+                rb = dns.rdata.from_text(rdclass, rdtype, text, origin=porigin, relativize=False)
+                wa, wb = ra.to_wire(origin=parent), rb.to_wire(origin=porigin)
+            except dns.exception.DNSException:
+                ctx.count("relativize_to.skip")
+            else:
+                ctx.count("relativize_to.checked")
+                # relativizing replaces the matched suffix by the origin's own spelling (case): compare modulo ASCII case
+                if wa.lower() != wb.lower():
+                    _fail(ctx, f"C05/relativize_to/value-differs/{tname}",
+                          f"{tname}: {text!r} read with origin={porigin} relativize_to={parent} denotes {wa.hex()}, "
+                          f"read with relativize=False {wb.hex()}", rep)
+                    return
     # --- equal record
     cmp_origin = origin if origin is not None else dns.name.root
     try:
